@@ -57,6 +57,10 @@ type state struct {
 	eventsNotifyCount   prometheus.Counter
 	eventsFinishedCount prometheus.Counter
 	xorTreeRepair       *xorTreeRepair
+	// addMutex makes the write transaction of Add and its rollback handler (reload of the XOR and IBLT trees) one
+	// critical section: the store releases its write lock before it calls the OnRollback functions, so without it
+	// another Add could update and persist the in-memory trees while they still contain the rolled-back transaction.
+	addMutex sync.Mutex
 }
 
 func (s *state) Migrate() error {
@@ -168,6 +172,12 @@ func (s *state) Add(ctx context.Context, transaction Transaction, payload []byte
 		return nil
 	}
 
+	// released after commit (before observers are notified) or, on failure, after the rollback handler has run
+	s.addMutex.Lock()
+	var unlockOnce sync.Once
+	unlock := func() { unlockOnce.Do(s.addMutex.Unlock) }
+	defer unlock()
+
 	return s.db.Write(ctx, func(tx stoabs.WriteTx) error {
 		// TX already present on DAG, nothing to do
 		// We need to do this check again, because a concurrent call could've added the TX (e.g. we got it from another peer).
@@ -207,7 +217,7 @@ func (s *state) Add(ctx context.Context, transaction Transaction, payload []byte
 		// do not use ctx: the rollback may be caused by ctx being cancelled/expired, in which case the reload would fail
 		// and the rolled-back transaction would stay in the in-memory trees and lamportClockHigh.
 		s.loadState(context.Background())
-	}), stoabs.AfterCommit(func() {
+	}), stoabs.AfterCommit(unlock), stoabs.AfterCommit(func() {
 		if txAdded {
 			s.notify(txEvent)
 			if emitPayloadEvent {
